@@ -4,6 +4,8 @@ The ``Scheduler`` class makes it easier to nest scheduler objects.
 
 # pylint: disable=w0212
 
+import asyncio
+
 from asynciojobs import PureScheduler
 from asynciojobs import AbstractJob
 
@@ -112,7 +114,17 @@ class Scheduler(PureScheduler, AbstractJob):
             triggers an exception, in which case it bubbles up.
         """
         # run as a pure scheduler, will always return True or False
-        pure = await PureScheduler.co_run(self)
+        try:
+            pure = await PureScheduler.co_run(self)
+        except asyncio.CancelledError:
+            # our enclosing scheduler is cancelling us (timeout, critical
+            # failure, or we are a forever job): pass it on to our own jobs
+            # and wait for them before giving up, so that nothing that we
+            # started outlives us
+            await self._tidy_tasks(
+                {job._task for job in self.jobs
+                 if job._task is not None and not job._task.done()})
+            raise
         # fine
         if pure is True:
             return pure
